@@ -574,6 +574,10 @@ class Interp:
         if m:
             srt = z3.Float64() if m.group(2) == "f64" else z3.Float32()
             return z3.FPVal(float(m.group(1)), srt)
+        m = re.fullmatch(r"core::num::<impl ([iu](?:8|16|32|64|128|size))>::(MAX|MIN|BITS)", txt)
+        if m:
+            lo, hi = INT_TYPES[m.group(1)]
+            return z3.IntVal({"MAX": hi, "MIN": lo, "BITS": (hi - lo + 1).bit_length() - 1}[m.group(2)])
         m = re.fullmatch(r"core::f(32|64)::<impl f(32|64)>::([A-Z_]+)", txt)
         if m:
             import sys as _sys
